@@ -173,3 +173,57 @@ class UApply(Comp):
                         cur.remove(x)
             L.append("uapply\t%s\t%s" % (csv(l), " ".join(ops)))
         return L
+
+
+def _ops_kinds(ops):
+    return [o.split(":")[0] for o in ops.split(" ")] if ops != "-" else []
+
+
+class UordForwardOracle:
+    """C06 on the implementation alone: lyd_diff_apply_all(copy of A, lyd_diff_siblings(A,B)) gives B with
+    *data at the first sibling, inputs untouched, and diff(A,A) is empty"""
+    name = "uord-forward"
+    driver = "t_uord"
+    comp = "udiff"
+
+    def gen(self, rng, tier, scale=1.0):
+        L = pair_cases(self, self.comp, rng, tier, scale, 3, 6, 400 if tier != "thorough" else 40000,
+                       800 if tier != "thorough" else 40000)
+        return L
+
+    def judge(self, line, out):
+        f = line.split("\t")
+        a, b = f[1], f[2]
+        o = out.split(" | ")
+        if len(o) != 4:
+            return (None, "no result (%s) for A=%s B=%s" % (out[:60], a, b))
+        if o[1] != b:
+            return (None, "apply(diff(A,B),A) = %s, expected B; A=%s B=%s diff=%s" % (o[1], a, b, o[0]))
+        if a == b and o[0] != "-":
+            return (None, "diff(A,A) = %s is not empty; A=%s" % (o[0], a))
+        if "!" in o[3]:
+            return (None, "an input tree was modified: %s; A=%s B=%s" % (o[3], a, b))
+        return None
+
+
+class UordReverseOracle(UordForwardOracle):
+    """C13 on the implementation alone: apply(reverse(diff(A,B)), B) = A. Failures outside the proved fragment
+    (C13_reverse_apply_userord_partial: no delete, at most one move) and a stale *data are the known finding
+    uord-reverse; a wrong list inside the fragment is a new violation."""
+    name = "uord-reverse"
+
+    def judge(self, line, out):
+        f = line.split("\t")
+        a, b = f[1], f[2]
+        o = out.split(" | ")
+        if len(o) != 4:
+            return (None, "no result (%s) for A=%s B=%s" % (out[:60], a, b))
+        got = o[3].split(" ")[0]
+        if got == a:
+            return None
+        kinds = _ops_kinds(o[0])
+        detail = "apply(reverse(diff(A,B)),B) = %s, expected A; A=%s B=%s diff=%s reversed=%s" % (got, a, b, o[0], o[2])
+        in_fragment = "d" not in kinds and kinds.count("r") <= 1
+        if in_fragment and got.split("^")[0] != a:
+            return (None, detail)
+        return ("uord-reverse", detail)
